@@ -1,0 +1,18 @@
+/*
+ * SPDX-FileCopyrightText: © 2017-2025 Istari Digital, Inc.
+ * SPDX-License-Identifier: Apache-2.0
+ */
+
+package simd
+
+// Search finds the first idx for which xs[idx] >= k in xs.
+//
+// The assembly compares four keys per iteration without checking the length, so it is only used
+// when len(xs) is a positive multiple of 8; every other length takes the portable path (as in
+// search.go), otherwise the result would depend on the memory that follows the slice.
+func Search(xs []uint64, k uint64) int16 {
+	if len(xs) < 8 || (len(xs)%8 != 0) {
+		return Naive(xs, k)
+	}
+	return search(xs, k)
+}
